@@ -791,11 +791,18 @@ add(Entry('enip_header', 'encapsulation', _p_enip_header, _e_enip_header, _m_eni
 
 
 def _p_enip_machine(draw):
-    return {'h': d_header(draw), 'pay': d_bytes(draw, 0, 10), 'ld': d_pick(draw, (0, 0, 0, 0, -1, -2, 1, 3))}
+    p = {'h': d_header(draw), 'pay': d_bytes(draw, 0, 10), 'ld': d_pick(draw, (0, 0, 0, 0, -1, -2, 1, 3))}
+    if d_pick(draw, (0,) * 11 + (1,)):
+        # a payload whose length needs the upper half of the 16-bit length field (repeat count >= 0x8000)
+        p['big'] = d_pick(draw, (32767, 32768, 32769, 40000, 65000))      # (frame + tail must fit the 16-bit 'prefix' limit form)
+        p['ld'] = 0
+    return p
 
 
 def _e_enip_machine(p):
     pay = unhx(p['pay'])
+    if p.get('big'):
+        pay = bytes((i * 7 + 3) & 0xFF for i in range(p['big']))
     length = max(0, len(pay) + p['ld'])
     E = enc_header(p['h'], length) + pay
     valid = length == len(pay)
